@@ -1815,4 +1815,223 @@ theorem whChainRun_append (fl : WhFlavour) (eta β₁ β₂ lam : R) (cueTab out
     | error e => rfl
     | ok r => exact ih (some r)
 
+/-! ## 4. the ORDER of the appended binary-side labels is irrelevant
+
+wh.py appends `list(set(new) - set(old))` — Python's set order — where the model
+`whModel` appends in counting order.  `whModelWith nl` takes the appended block
+as a parameter; the continuation theorems hold for EVERY block that contains
+the new names of the events (`NewCovers`), with the same right-hand side, so
+the weights read through the labels do not depend on the order
+(`whModelWith_b2r_get_eq`, `whModelWith_r2b_get_eq`). -/
+
+/-- the block `nl old ev` appended to `old` contains every name of `ev` that is
+    not in `old` (true of every arrangement of `set(ev) - set(old)`) -/
+def NewCovers (nl : List String → List String → List String) (old ev : List String) : Prop :=
+  ∀ x ∈ ev, x ∈ old ++ nl old ev
+
+theorem newCovers_of_perm (nl : List String → List String → List String) (old ev : List String)
+    (h : (nl old ev).Perm (countingNew old ev)) : NewCovers nl old ev := by
+  intro x hx
+  have := mem_append_filter_new old ev x hx
+  rcases List.mem_append.mp this with h1 | h1
+  · exact List.mem_append_left _ h1
+  · exact List.mem_append_right _ (h.mem_iff.mpr h1)
+
+theorem newCovers_counting (old ev : List String) : NewCovers countingNew old ev :=
+  newCovers_of_perm countingNew old ev (List.Perm.refl _)
+
+/-- `whModel` is `whModelWith` with the counting order -/
+theorem whModel_eq_with (fl : WhFlavour) (p : DupPolicy) (eta β₁ β₂ lam : R)
+    (cueTab outTab : Option (VecTable R)) (chunk : Nat) (W0 : Option (LW R))
+    (es : List (Event String String)) :
+    whModel fl p eta β₁ β₂ lam cueTab outTab chunk W0 es
+      = whModelWith countingNew fl p eta β₁ β₂ lam cueTab outTab chunk W0 es := by
+  unfold whModelWith
+  cases fl <;> cases cueTab <;> cases outTab <;> rfl
+
+/-- **continued binary → real call, ANY order of the appended cue labels**
+    (`whModel_b2r_continue` for `whModelWith nl`): same hypotheses plus
+    `NewCovers`; the cue labels are `w.cues ++ nl …` and the row every outcome
+    dimension denotes is the SAME specification `whB2RSpecFrom … w.byCue es'`. -/
+theorem whModelWith_b2r_continue (nl : List String → List String → List String)
+    (p : DupPolicy) (eta β₁ β₂ lam : R) (ot : VecTable R)
+    (chunk : Nat) (hc : 1 ≤ chunk) (w : LW R) (es es' : List (Event String String))
+    (htabo : ∀ e ∈ es, ∀ o ∈ e.outcomes, o ∈ ot.names)
+    (hp : applyPolicyAll p es = some es') (hlab : w.outcomes = ot.dims)
+    (hnl : NewCovers nl w.cues (countNames es).1) :
+    ∃ r, whModelWith nl .b2r p eta β₁ β₂ lam none (some ot) chunk (some w) es = .ok r ∧
+      r.outcomes = ot.dims ∧
+      r.cues = w.cues ++ nl w.cues (countNames es).1 ∧
+      r.vals.size = r.cues.length * ot.dims.length ∧
+      ∀ d, d < ot.dims.length → r.byCue d = whB2RSpecFrom eta ot w.byCue es' d := by
+  have hchko := (tableCheck_outcomes_iff ot.names es).mpr htabo
+  have hmem1 : ∀ e ∈ es, ∀ c ∈ e.cues, c ∈ (countNames es).1 := fun e he => (countNames_mem es e he).1
+  rcases hcn : countNames es with ⟨cuesEv, outsEv⟩
+  rw [hcn] at hchko hmem1 hnl
+  simp only at hchko hmem1 hnl ⊢
+  have hlen : w.outcomes.length = ot.dims.length := by rw [hlab]
+  set cues := w.cues ++ nl w.cues cuesEv with hcues
+  have hcs : ∀ e ∈ es, ∀ c ∈ e.cues, c ∈ cues := fun e he c hc => hnl c (hmem1 e he c hc)
+  have hpid := applyPolicyIds_toIds p cues ot.names es es' hcs htabo hp
+  have hes' := applyPolicyAll_cues p es es' hp (· ∈ cues) hcs
+  have hw0 : (extendVals w.vals ot.dims.length w.cues.length ot.dims.length cues.length).size
+      = cues.length * ot.dims.length := by
+    rw [size_extendVals, Nat.mul_comm]
+  have hev : ∀ e ∈ [es'.map (toIds cues ot.names)].flatten, ∀ c ∈ e.cues, c < cues.length := by
+    intro e he c hc
+    simp only [List.flatten_cons, List.flatten_nil, List.append_nil] at he
+    obtain ⟨e0, he0, rfl⟩ := List.mem_map.mp he
+    obtain ⟨c0, hc0, rfl⟩ := List.mem_map.mp hc
+    exact List.idxOf_lt_length_iff.mpr (hes' e0 he0 c0 hc0)
+  have hstep := whB2R_rowstep eta ot.vals ot.dims.length cues.length
+  have hrow := fun i hi => learnOmpWith_row hstep [es'.map (toIds cues ot.names)] chunk hc hev _ hw0 i hi
+  have hsize := learnOmpWith_size hstep [es'.map (toIds cues ot.names)] chunk hc hev _ hw0
+  refine ⟨⟨ot.dims, cues, learnOmpWith
+      (fun w d e => whB2RRowEvent eta ot.vals ot.dims.length cues.length w d e.cues e.outcomes)
+      [es'.map (toIds cues ot.names)] (List.range ot.dims.length) chunk
+      (extendVals w.vals ot.dims.length w.cues.length ot.dims.length cues.length)⟩,
+    ?_, rfl, rfl, hsize, ?_⟩
+  · unfold whModelWith
+    rw [hcn]
+    have h2 : ¬ chunk < 1 := by omega
+    simp only [hchko, hlab, hpid, h2, if_false, Bool.false_eq_true, ne_eq, not_true_eq_false, ← hcues]
+  · intro d hd
+    funext c
+    by_cases hcm : c ∈ cues
+    · rw [LW.byCue_eq_rowFn _ d hd c hcm]
+      simp only
+      rw [hrow _ hd]
+      simp only [List.flatten_cons, List.flatten_nil, List.append_nil]
+      unfold whB2RSpecFrom
+      refine whB2R_rename eta ot cues d es' hes' _ _ ?_ c hcm
+      intro x hx
+      have hj : cues.idxOf x < cues.length := List.idxOf_lt_length_iff.mpr hx
+      unfold rowFn flatIdx LW.byCue
+      rw [if_pos hj, Nat.mul_comm, extendVals_get _ _ _ _ _ _ _ hd hj, hlen]
+      by_cases hxw : x ∈ w.cues
+      · have e1 : cues.idxOf x = w.cues.idxOf x := idxOf_append_mem _ _ _ hxw
+        rw [e1]
+      · have l1 : ¬ (w.cues.idxOf x < w.cues.length) := by
+          rw [List.idxOf_lt_length_iff]; exact hxw
+        have g1 : ¬ (cues.idxOf x < w.cues.length) := by
+          rw [hcues, List.idxOf_append_of_notMem hxw]; omega
+        rw [if_neg (fun h => g1 h.2), if_neg (fun h => l1 h.2)]
+    · have hcw : c ∉ w.cues := fun h => hcm (List.mem_append_left _ h)
+      rw [LW.byCue_not_mem _ d c hcm,
+        whB2RSpecFrom_unseen_cue eta ot _ es' d c (fun e he hce => hcm (hes' e he c hce)),
+        LW.byCue_not_mem w d c hcw]
+
+/-- **continued real → binary call, ANY order of the appended outcome labels**
+    (`whModel_r2b_continue_pos` for `whModelWith nl`) -/
+theorem whModelWith_r2b_continue_pos (nl : List String → List String → List String)
+    (p : DupPolicy) (eta β₁ β₂ lam : R) (ct : VecTable R)
+    (chunk : Nat) (hc : 1 ≤ chunk) (w : LW R) (es es' : List (Event String String))
+    (htab : ∀ e ∈ es, ∀ c ∈ e.cues, c ∈ ct.names)
+    (hp : applyPolicyAll p es = some es') (hlen : w.cues.length = ct.dims.length)
+    (hal : ¬ alignRaises ct.dims w.cues)
+    (hnl : NewCovers nl w.outcomes (countNames es).2) :
+    ∃ r, whModelWith nl .r2b p eta β₁ β₂ lam (some ct) none chunk (some w) es = .ok r ∧
+      r.outcomes = w.outcomes ++ nl w.outcomes (countNames es).2 ∧
+      r.cues = ct.dims ∧ r.vals.size = ct.dims.length * r.outcomes.length ∧
+      r.byOutcome = whR2BSpecFrom β₁ β₂ lam ct w.byOutcome es' := by
+  have hchk := (tableCheck_cues_iff ct.names es).mpr htab
+  have hmem2 : ∀ e ∈ es, ∀ o ∈ e.outcomes, o ∈ (countNames es).2 := fun e he => (countNames_mem es e he).2
+  rcases hcn : countNames es with ⟨cuesEv, outsEv⟩
+  rw [hcn] at hchk hmem2 hnl
+  simp only at hchk hmem2 hnl ⊢
+  set outs := w.outcomes ++ nl w.outcomes outsEv with houts
+  have hos : ∀ e ∈ es, ∀ o ∈ e.outcomes, o ∈ outs := fun e he o ho => hnl o (hmem2 e he o ho)
+  have hpid := applyPolicyIds_toIds p ct.names outs es es' htab hos hp
+  have hes' := applyPolicyAll_outcomes p es es' hp (· ∈ outs) hos
+  have hw0 : (extendVals w.vals w.outcomes.length ct.dims.length outs.length ct.dims.length).size
+      = ct.dims.length * outs.length := by
+    rw [size_extendVals, Nat.mul_comm]
+  have hstep := whR2B_rowstep β₁ β₂ lam ct.vals ct.dims.length outs.length
+  have hrow := fun i hi => learnOmpWith_row hstep [es'.map (toIds ct.names outs)] chunk hc
+    (fun _ _ => trivial) _ hw0 i hi
+  have hsize := learnOmpWith_size hstep [es'.map (toIds ct.names outs)] chunk hc (fun _ _ => trivial) _ hw0
+  refine ⟨⟨outs, ct.dims, learnOmpWith
+      (fun w ii e => whR2BRowEvent β₁ β₂ lam ct.vals ct.dims.length w ii e.cues e.outcomes)
+      [es'.map (toIds ct.names outs)] (List.range outs.length) chunk
+      (extendVals w.vals w.outcomes.length ct.dims.length outs.length ct.dims.length)⟩,
+    ?_, rfl, rfl, hsize, ?_⟩
+  · unfold whModelWith
+    rw [hcn]
+    have h2 : ¬ chunk < 1 := by omega
+    simp only [hchk, hlen, hpid, h2, if_false, Bool.false_eq_true, ne_eq, not_true_eq_false, ← houts,
+      if_neg hal]
+  · funext o
+    by_cases ho : o ∈ outs
+    · have hi : outs.idxOf o < outs.length := List.idxOf_lt_length_iff.mpr ho
+      rw [LW.byOutcome_eq_rowFn _ o ho]
+      simp only
+      rw [hrow _ hi]
+      simp only [List.flatten_cons, List.flatten_nil, List.append_nil]
+      rw [whR2B_rename β₁ β₂ lam ct outs o ho es' hes']
+      unfold whR2BSpecFrom
+      congr 1
+      funext k
+      unfold rowFn flatIdx LW.byOutcome
+      by_cases hk : k < ct.dims.length
+      · rw [if_pos hk, Nat.mul_comm, extendVals_get _ _ _ _ _ _ _ hi hk, hlen]
+        by_cases how : o ∈ w.outcomes
+        · have e1 : outs.idxOf o = w.outcomes.idxOf o := idxOf_append_mem _ _ _ how
+          rw [e1]
+        · have l1 : ¬ (w.outcomes.idxOf o < w.outcomes.length) := by
+            rw [List.idxOf_lt_length_iff]; exact how
+          have g1 : ¬ (outs.idxOf o < w.outcomes.length) := by
+            rw [houts, List.idxOf_append_of_notMem how]; omega
+          rw [if_neg (fun h => g1 h.1), if_neg (fun h => l1 h.1)]
+      · rw [if_neg hk, hlen, if_neg (fun h => hk h.2)]
+    · have how : o ∉ w.outcomes := fun h => ho (List.mem_append_left _ h)
+      rw [LW.byOutcome_not_mem _ o ho,
+        whR2BSpecFrom_unseen β₁ β₂ lam ct _ es' o (LW.byOutcome_not_mem w o how)
+          (fun e he hoe => ho (hes' e he o hoe))]
+
+/-- **binary → real: any order of the appended cue labels gives the same
+    weights through the labels** as the model's counting order -/
+theorem whModelWith_b2r_get_eq (nl : List String → List String → List String)
+    (p : DupPolicy) (eta β₁ β₂ lam : R) (ot : VecTable R)
+    (chunk : Nat) (hc : 1 ≤ chunk) (w : LW R) (es es' : List (Event String String))
+    (htabo : ∀ e ∈ es, ∀ o ∈ e.outcomes, o ∈ ot.names)
+    (hp : applyPolicyAll p es = some es') (hlab : w.outcomes = ot.dims)
+    (hnl : NewCovers nl w.cues (countNames es).1) :
+    ∃ r r', whModel .b2r p eta β₁ β₂ lam none (some ot) chunk (some w) es = .ok r ∧
+      whModelWith nl .b2r p eta β₁ β₂ lam none (some ot) chunk (some w) es = .ok r' ∧
+      r'.outcomes = r.outcomes ∧
+      r.cues = w.cues ++ countingNew w.cues (countNames es).1 ∧
+      r'.cues = w.cues ++ nl w.cues (countNames es).1 ∧
+      ∀ a b, r'.get a b = r.get a b := by
+  obtain ⟨r, h1, h2, h3, _, h5⟩ := whModel_b2r_continue p eta β₁ β₂ lam ot chunk hc w es es' htabo hp hlab
+  obtain ⟨r', g1, g2, g3, _, g5⟩ :=
+    whModelWith_b2r_continue nl p eta β₁ β₂ lam ot chunk hc w es es' htabo hp hlab hnl
+  refine ⟨r, r', h1, g1, by rw [g2, h2], h3, g3, ?_⟩
+  intro a b
+  rw [LW.get_eq_byCue, LW.get_eq_byCue, g2, h2]
+  by_cases hd : a ∈ ot.dims
+  · rw [if_pos hd, if_pos hd, g5 _ (List.idxOf_lt_length_iff.mpr hd), h5 _ (List.idxOf_lt_length_iff.mpr hd)]
+  · rw [if_neg hd, if_neg hd]
+
+/-- **real → binary: any order of the appended outcome labels gives the same
+    weights through the labels** -/
+theorem whModelWith_r2b_get_eq (nl : List String → List String → List String)
+    (p : DupPolicy) (eta β₁ β₂ lam : R) (ct : VecTable R)
+    (chunk : Nat) (hc : 1 ≤ chunk) (w : LW R) (es es' : List (Event String String))
+    (htab : ∀ e ∈ es, ∀ c ∈ e.cues, c ∈ ct.names)
+    (hp : applyPolicyAll p es = some es') (hlen : w.cues.length = ct.dims.length)
+    (hal : ¬ alignRaises ct.dims w.cues)
+    (hnl : NewCovers nl w.outcomes (countNames es).2) :
+    ∃ r r', whModel .r2b p eta β₁ β₂ lam (some ct) none chunk (some w) es = .ok r ∧
+      whModelWith nl .r2b p eta β₁ β₂ lam (some ct) none chunk (some w) es = .ok r' ∧
+      r'.cues = r.cues ∧
+      r.outcomes = w.outcomes ++ countingNew w.outcomes (countNames es).2 ∧
+      r'.outcomes = w.outcomes ++ nl w.outcomes (countNames es).2 ∧
+      ∀ a b, r'.get a b = r.get a b := by
+  obtain ⟨r, h1, h2, h3, _, h5⟩ := whModel_r2b_continue_pos p eta β₁ β₂ lam ct chunk hc w es es' htab hp hlen hal
+  obtain ⟨r', g1, g2, g3, _, g5⟩ :=
+    whModelWith_r2b_continue_pos nl p eta β₁ β₂ lam ct chunk hc w es es' htab hp hlen hal hnl
+  refine ⟨r, r', h1, g1, by rw [g3, h3], h2, g2, ?_⟩
+  intro a b
+  rw [LW.get_eq_byOutcome, LW.get_eq_byOutcome, g3, h3, g5, h5]
+
 end Pyndl
